@@ -80,7 +80,7 @@ def seg_obs_direct(bk, sg):
     if not sflag:
         # closest-point parameters are invariant under a uniform scaling of the plane; powers of two keep the data exact.
         # (section coordinates of real manifolds are O(1e-4): the routine must not depend on the length scale)
-        for e in (10, 14):
+        for e in (10, 14, 20, 24):      # down to ~6e-8 of the unit scale: thresholds that mix powers of the length show only there
             sc = 2.0 ** -e
             s2, t2, px2, py2, qx2, qy2 = bk._closest_points_on_segments_2d(*[float(v) * sc for v in sg])
             if max(abs(s2 - s), abs(t2 - t)) > TOL or max(abs(px2 - px * sc), abs(py2 - py * sc), abs(qx2 - qx * sc), abs(qy2 - qy * sc)) > TOL * sc:
